@@ -75,6 +75,17 @@ def _compare(spec, dt, outs, full, what):
     require(msg is None, "{}: streaming differs from compute_full: {}", what, msg)
 
 
+def _prior(comp, case, dt):
+    """The statement holds for 'any computer', not only a brand-new one: optionally the streaming
+    instance has already processed (and finalized) an earlier utterance."""
+    pr = case.get("prior")
+    if not pr:
+        return
+    y = make_signal(pr["sig"], DTYPES[dt])
+    _run_chunked(comp, y, compositions(len(y), pr.get("cuts", [])))
+    require(not comp.started, "computer still started after finalize of the earlier utterance")
+
+
 def _labels(spec, comp, N, lens):
     L, S = comp.frame_length, comp.frame_shift
     if N < S // 2:
@@ -117,6 +128,7 @@ def check_chunked(case):
     N = len(x)
     lens = compositions(N, case["cuts"])
     full = call("compute_full", fresh.compute_full, x)
+    _prior(stream, case, dt)
     outs = _run_chunked(stream, x, lens)
     _compare(spec, dt, outs, full, "N=%d L=%d S=%d chunks=%s" % (N, L, S, lens))
     return {"nontrivial": _nontrivial(stream, lens, full.shape[0]), "labels": _labels(spec, stream, N, lens) + ["dtype=" + dt]}
@@ -132,6 +144,7 @@ def check_fbf(case):
         raise Discard()
     x = make_signal(case["sig"], DTYPES[dt])
     full = call("compute_full", fresh.compute_full, x)
+    _prior(a, case, dt)
     got = call("frame_by_frame_calculation", frame_by_frame_calculation, a, x, case["chunk_size"])
     rtol, afrac = _tols(spec, dt)
     require(got.shape == full.shape, "chunk_size={}: {} frames vs compute_full {}", case["chunk_size"], got.shape, full.shape)
@@ -152,7 +165,7 @@ _ENUM_BANK = {"alias": "tri", "num_filts": 1, "low_hz": 0.0, "high_hz": 500.0, "
 
 
 def _enum_cases(tier):
-    Lmax, Nmax = (8, 10) if tier == "thorough" else (4, 6)
+    Lmax, Nmax = (8, 10) if tier == "thorough" else (6, 6)
     for L in range(1, Lmax + 1):
         for S in range(1, L + 1):
             for style, kaldi in (("causal", False), ("centered", False), ("centered", True)):
@@ -222,7 +235,15 @@ def _stft_cases(draw):
         "sig": draw(signal_specs(st.just(n))),
         "cuts": draw(cut_lists(n, L, S)),
         "dtype": draw(st.sampled_from(["f64", "f64", "f64", "f32"])),
+        "prior": draw(_priors(L, S)),
     }
+
+
+def _priors(L, S):
+    pn = st.one_of(st.integers(0, max(L // 2, 1)), st.integers(0, L), st.integers(L, 3 * L))
+    return st.one_of(st.none(), st.none(), st.builds(
+        lambda n, seed, k: {"sig": {"n": n, "kind": "noise", "seed": seed, "scale": 7.0}, "cuts": [c for c in k if c <= n]},
+        pn, st.integers(0, 2 ** 20), st.lists(st.integers(0, 3 * L), max_size=2)))
 
 
 @st.composite
@@ -237,6 +258,7 @@ def _si_cases(draw):
         "sig": draw(signal_specs(st.just(n))),
         "cuts": draw(cut_lists(n, 2 * S, S)),
         "dtype": draw(st.sampled_from(["f64", "f64", "f64", "f32"])),
+        "prior": draw(_priors(2 * S, S)),
     }
 
 
@@ -249,6 +271,7 @@ def _fbf_cases(draw):
         "sig": draw(signal_specs(st.just(n))),
         "chunk_size": draw(st.one_of(st.integers(1, 64), st.integers(1, 8), st.sampled_from([1, 2, 1024]))),
         "dtype": "f64",
+        "prior": draw(_priors(16, 4)),
     }
 
 
